@@ -120,4 +120,59 @@ theorem runs_onGroup (sh : Shared) (g : String) :
         exact fun m hm => href (.setGrp g ms) (by simp) ms rfl m hm
       simp only [exec, hall, Bool.not_true, Bool.false_eq_true, if_false, hany, if_true]
 
+theorem lookupGrp_append_single (gs : List Grp) (g : Grp) (n : String) (h : n ≠ g.name) :
+    lookupGrp (gs ++ [g]) n = lookupGrp gs n := by
+  unfold lookupGrp
+  rw [List.find?_append]
+  cases gs.find? (·.name == n) with
+  | some x => rfl
+  | none =>
+    have : (g.name == n) = false := by
+      have : g.name ≠ n := fun e => h e.symm
+      simpa using this
+    simp [List.find?_cons, this]
+
+/-- A group-member request leaves the groups of other names alone. -/
+theorem exec_grpMem_other {sh : Shared} {v w : Vsys} {c : Cmd} (hc : c.isGrpMem = true) (h : exec sh v c = .ok w)
+    (n : String) (hn : n ≠ c.grpTarget) : lookupGrp w.groups n = lookupGrp v.groups n := by
+  have hne : (n == c.grpTarget) = false := by simpa using hn
+  cases c <;> simp only [Cmd.isGrpMem] at hc <;> try (cases hc)
+  · rename_i t ms
+    simp only [Cmd.grpTarget] at hn hne
+    simp only [exec] at h
+    split at h
+    · cases h
+    · split at h
+      · simp only [Except.ok.injEq] at h; subst h
+        simp only
+        rw [lookupGrp_modifyGrp, hne]; rfl
+      · simp only [Except.ok.injEq] at h; subst h
+        exact lookupGrp_append_single _ _ _ hn
+  · rename_i t m
+    simp only [Cmd.grpTarget] at hn hne
+    simp only [exec] at h
+    split at h
+    · cases h
+    · split at h
+      · simp only [Except.ok.injEq] at h; subst h
+        simp only
+        rw [lookupGrp_modifyGrp, hne]; rfl
+      · cases h
+
+theorem runs_grpMem_other (sh : Shared) (names : List String) : ∀ (gs : List Cmd) (v w : Vsys),
+    GrpMemOn names gs → Runs sh v gs w → ∀ n, n ∉ names → lookupGrp w.groups n = lookupGrp v.groups n := by
+  intro gs
+  induction gs with
+  | nil =>
+    intro v w _ hr n _
+    unfold Runs at hr
+    simp only [execAll, Prod.mk.injEq] at hr
+    rw [← hr.1]
+  | cons c cs ih =>
+    intro v w hon hr n hn
+    obtain ⟨v1, hv1, hr'⟩ := hr.cons_inv
+    obtain ⟨hg, ht⟩ := hon c (by simp)
+    rw [ih v1 w (fun c' hc' => hon c' (List.mem_cons_of_mem _ hc')) hr' n hn]
+    exact exec_grpMem_other hg hv1 n (fun e => hn (e ▸ ht))
+
 end NA.PanOs
